@@ -46,7 +46,7 @@ def obligations(tier, seed=0):
         bcs += [300]
     for bc in bcs:
         for sign in (0, 1):
-            add('to_float', bc=bc, elo=-1021 - bc + 1, ehi=1030 - bc, sign=sign)          # whole normal range and overflow
+            add('to_float', bc=bc, elo=-1021 - bc, ehi=1030 - bc, sign=sign)          # whole normal range (from 2^-1022) and overflow
             add('to_float', bc=bc, elo=1000 - bc, ehi=1030 - bc, sign=sign, entry='float')
     for rnd in 'fcdu':
         add('to_float', bc=60, elo=-100, ehi=100, rnd=rnd, sign=0)
